@@ -334,11 +334,17 @@ def _r27a_fluffconfig(chk) -> None:
             for t in tgts:
                 if isinstance(t, ast.Attribute) and isinstance(t.value, ast.Name) and t.value.id == "self" and n.value is not None:
                     stores.setdefault(t.attr, []).append(n)
-    merges = [n for n in stores.get("_configs", []) if _is_nested_combine(repo, n.value)]
+    # every value stored in self._configs is (directly or through plain locals) a nested_combine(...) call
+    merges, all_merges = [], bool(stores.get("_configs"))
+    for n in stores.get("_configs", []):
+        for s in single_sources(cfg, n.value, n):
+            if s.kind == "expr" and isinstance(s.expr, ast.Call) and _is_nested_combine(repo, s.expr):
+                merges.append((s.stmt, s.expr))
+            else:
+                all_merges = False
     chk.count("R27a.init_merge", len(merges))
-    chk.require(bool(merges) and len(merges) == len(stores.get("_configs", [])), "R27a", init, "FluffConfig.__init__ no longer builds self._configs by a single nested_combine(...)", detail="self._configs is the merge")
-    for st in merges:
-        call = st.value
+    chk.require(bool(merges) and all_merges, "R27a", init, "FluffConfig.__init__ no longer builds self._configs by a single nested_combine(...)", detail="self._configs is the merge")
+    for st, call in merges:
         args = list(call.args)
         cones = [cone(cfg, a, st) for a in args]
 
